@@ -124,7 +124,7 @@ def eval_spaces(prop, tier):
         else:
             for s in _canon_sigs(plans.MEN4):
                 sig(s, 16)
-            for s in ["KRNkr", "KRBkr", "KNNkp", "KBPkb", "KQkrp", "KBBkn", "KBNkb", "KQRk", "KBPPk", "KBNkn", "KNNkb"]:
+            for s in ["KRNkr", "KRBkr", "KNNkp", "KBPkb", "KQkrp", "KBBkn", "KBNkb", "KBPPk"]:
                 sig(s + ";files=5;ep=none", 32)
             for s in ["KBPPkb", "KQkrpp", "KPPPk", "KBPPPk"]:
                 sig(s + ";files=3;ep=none", 32)
@@ -142,7 +142,7 @@ def eval_spaces(prop, tier):
         sig("KQQQk;files=5", 8)
         # same pawn structure x every placement of the other pieces (pawns first = outer loops)
         for s in (["PpKkn;files=4;ep=none", "PPKkn;files=4;ep=none"] if q else
-                  ["PpKkn;ep=none", "PPKkn;files=6;ep=none", "PpKNk;ep=none", "ppkKN;files=6;ep=none", "PPpKkn;files=4;ep=none", "PpKkb;files=6;ep=none", "PpKkr;files=6;ep=none", "PPpKRkn;files=3;ep=none"]):
+                  ["PpKkn;files=6;ep=none", "PPKkn;files=6;ep=none", "PpKNk;files=6;ep=none", "ppkKN;files=6;ep=none", "PPpKkn;files=4;ep=none", "PpKkb;files=6;ep=none", "PpKkr;files=6;ep=none"]):
             for i in range(8):
                 jobs.append(["pawngroup|%s;shard=%d/8" % (s, i)])
         # kings fixed in far corners, pawns outermost: cached vs always-missed pawn term
@@ -243,8 +243,17 @@ def replay(rec, verbose=False):
             return searchchecks.REPLAYERS[prop](rec, verbose)
     except ImportError:
         pass
-    # table-level checks are deterministic total enumerations: replay = re-run the whole (cheap) check
-    rc = run(prop, rec.get("tier", "quick"))
+    # table-level checks are deterministic total enumerations: replay = re-run the whole (cheap) check,
+    # with its evidence redirected so that a replay never rewrites /verif/evidence
+    import tempfile
+    old = (driver.EVID, driver.REPLAYS)
+    tmp = tempfile.mkdtemp(prefix="replay-ev-")
+    driver.EVID, driver.REPLAYS = tmp, os.path.join(tmp, "replays")
+    try:
+        rc = run(prop, rec.get("tier", "quick"))
+    finally:
+        driver.EVID, driver.REPLAYS = old
+        shutil.rmtree(tmp, ignore_errors=True)
     return rc == 1
 
 
